@@ -292,8 +292,28 @@ def naming(repo: Repo, R):
     ok = bool(recs) and lp is not None and ast.unparse(recs[0][1]["N"]) == f"{ast.unparse(lp.target)}.name"
     R.check(ok, rule, key_of(fi, "subscope-key"), fi.site, f"a sub-bundle's leaves are entered under the sub-instance's name: {ok}", why="nested members are named after the bundle type instead of the member")
     fa = repo.func(F_FLATB, "BundleScope.add_subscope")
-    pre = bool(pat.find("$PS.prepend(name)", fa.node)) or bool(pat.find("$PS.prepend($N)", fa.node))
-    coll = any(isinstance(n, ast.If) and "in self.signals" in ast.unparse(n.test) and au.raises(n.body) for n in au.walk_no_nested(fa.node))
+    from . import shared
+
+    # the key under which a sub-scope's leaf enters this scope is <sub-instance name> followed by the leaf's own path
+    pre = coll = False
+    nm_param = fa.node.args.args[1].arg
+    for lp_ in [n for n in au.walk_no_nested(fa.node) if isinstance(n, ast.For) and ast.unparse(n.iter).endswith(".signals.items()") and isinstance(n.target, ast.Tuple) and len(n.target.elts) == 2]:
+        suffix = ast.unparse(lp_.target.elts[0])
+        for c, b in pat.find("self.signals[$K] = $V", lp_):
+            k = shared.prov(fa.node, b["K"])
+            m1 = pat.match(f"{suffix}.prepend($N)", k)
+            m2 = pat.match(f"$N.append({suffix})", k)
+            m = m1 or m2
+            if m is not None:
+                ntxt = ast.unparse(shared.prov(fa.node, m["N"]))
+                # `name` may have been re-bound to Path([name]) (the reference spelling) or kept apart
+                pre = ntxt in (f"Path([{nm_param}])", nm_param) and (ntxt != nm_param or any(isinstance(st, ast.Assign) and ast.unparse(st) == f"{nm_param} = Path([{nm_param}])" for st in au.stmts(fa.node)))
+                pre = pre and ast.unparse(b["V"]) == ast.unparse(lp_.target.elts[1])
+            coll = any(t_p[1] is False and pat.match("$K in self.signals", t_p[0]) is not None and ast.unparse(shared.prov(fa.node, pat.match("$K in self.signals", t_p[0])["K"])) == ast.unparse(k) for t_p in shared.path_conditions(fa.node, c)) and any(isinstance(n, ast.If) and "in self.signals" in ast.unparse(n.test) and au.raises(n.body) for n in ast.walk(lp_))
+    ci_path = repo.cls(F_FLATB, "Path")
+    ap, pp = ci_path.methods.get("append"), ci_path.methods.get("prepend")
+    path_sem = ap is not None and pp is not None and [ast.unparse(r.value) for r in shared.returns_of(ap.node)] == [f"Path(segs=self.segs + {ap.node.args.args[1].arg}.segs)"] and [ast.unparse(r.value) for r in shared.returns_of(pp.node)] == [f"Path(segs={pp.node.args.args[1].arg}.segs + self.segs)"]
+    R.check(path_sem, rule, key_of(ap) if ap else f"{F_FLATB}::Path", ci_path.site, f"Path.append puts the argument's segments after, Path.prepend before, its own: {path_sem}", why="every nested path is built in the reverse order: flattened names read member_bundle instead of bundle_member")
     R.check(pre and coll, rule, key_of(fa), fa.site, f"add_subscope prepends the sub-instance name to every leaf path ({pre}) and rejects colliding paths ({coll})", why="paths of nested leaves miss a segment, or two leaves share one flattened name")
     fp = repo.func(F_FLATB, "Path.prepend")
     ok = bool(pat.find("Path(segs=prefix.segs + self.segs)", fp.node))
